@@ -1,16 +1,29 @@
 ---------------------------- MODULE DisposeTrace ----------------------------
 (* C16 judge (property level).  One trace = one component instance that is closed.  Alphabet:     *)
-(*   Cfg      [comp, sync]        component kind; sync = TRUE when Close is a mutex-guarded latch  *)
+(*   Cfg      [comp, sync, excl]  component kind; sync = TRUE when Close is a mutex-guarded latch  *)
 (*                                (dispose based: a Close that returns has waited for the clean-up *)
 (*                                to finish), FALSE for Tunnel.Close, whose contract lets a later  *)
-(*                                closer return while the first one is still closing               *)
+(*                                closer return while the first one is still closing; excl (only   *)
+(*                                the resource manager) = TRUE: a disposal call that starts while  *)
+(*                                another one may still be in flight returns at once and takes     *)
+(*                                over nothing - what was handed over since stays owed until a     *)
+(*                                call starts with no disposal in flight                           *)
 (*   Reg      [h]                 clean-up action / close callback h is registered                 *)
 (*   Own      [h]                 the component is handed a resource (a connection) whose release  *)
 (*                                h it now owes: demanded exactly once if ANY Close is called      *)
 (*                                afterwards (Reg: only if registered before the FIRST Close call) *)
-(*   CloseCall[p] CloseRet[p]     closer p calls Close / its Close returns                          *)
+(*   Drop     [h]                 the component is relieved of h again (resource unregistered): no *)
+(*                                demand that it runs, still at most once                          *)
+(*   CloseCall[p] CloseRet[p, async]  closer p calls Close / its Close returns; async = TRUE: the  *)
+(*                                call may have left its work to a helper that is still running     *)
+(*                                (DisposeWithTimeout): a disposal may be in flight until Settled   *)
+(*   Settled                      no disposal of the component is in flight any more (observed: no  *)
+(*                                goroutine is inside the component's package)                      *)
 (*   Ran      [h]                 clean-up action or callback h ran                                *)
 (*   Report   [delta]             the component added delta bytes to the traffic statistics        *)
+(*   Fault    [what]              the environment made a call of the component fail (cloud control  *)
+(*                                unavailable for a moment); informational - the driver lets such a  *)
+(*                                fault hit only reporters after which another one is still to come  *)
 (*   Op       [op, res]           operation invoked after a Close had returned:                    *)
 (*                                res = "ok" | "closed" | "error" | "panic" | "hang"               *)
 (*   Panic    [where]             a panic was recovered somewhere in the component                 *)
@@ -29,6 +42,8 @@
 (*                                    Close was called) has not run                                 *)
 (*                comp:h:at-quiescence  every Close returned, h has not run                         *)
 (*   TrafficOnce  comp:over|under     sum of reported deltas > / < bytes moved                      *)
+(*                comp:lost           the totals kept by cloud control end up below the bytes moved   *)
+(*                                    although every delta was reported (an update was overwritten)   *)
 (*   CleanFailure comp:op:panic|hang  an operation after close panicked / never returned            *)
 (*   NoPanic      comp:where                                                                        *)
 (*   NoLeak       comp:top            goroutines left behind                                        *)
@@ -37,29 +52,35 @@
 (* close fails rather than succeeds harmlessly; a handler registered after Close was called.        *)
 EXTENDS VLib
 
-VARIABLES comp, sync, anyCall, open, nret, must, cnt, sum, pending
-vars == <<l, viol, comp, sync, anyCall, open, nret, must, cnt, sum, pending>>
+VARIABLES comp, sync, anyCall, open, nret, must, cnt, sum, pending, excl, linger
+vars == <<l, viol, comp, sync, anyCall, open, nret, must, cnt, sum, pending, excl, linger>>
 
 Init == /\ l = 1 /\ viol = {} /\ comp = "?" /\ sync = FALSE /\ anyCall = FALSE
-        /\ open = <<>> /\ nret = 0 /\ must = {} /\ cnt = <<>> /\ sum = 0 /\ pending = {}
+        /\ open = <<>> /\ nret = 0 /\ must = {} /\ cnt = <<>> /\ sum = 0 /\ pending = {} /\ excl = FALSE /\ linger = FALSE
 
 Cnt(h) == IF h \in DOMAIN cnt THEN cnt[h] ELSE 0
 
-TrCfg == /\ Is("Cfg") /\ comp' = Ev.comp /\ sync' = Ev.sync
-         /\ l' = l + 1 /\ UNCHANGED <<viol, anyCall, open, nret, must, cnt, sum, pending>>
+TrCfg == /\ Is("Cfg") /\ comp' = Ev.comp /\ sync' = Ev.sync /\ excl' = (Has("excl") /\ Ev.excl)
+         /\ l' = l + 1 /\ UNCHANGED <<viol, anyCall, open, nret, must, cnt, sum, pending, linger>>
 
 TrReg == /\ Is("Reg")
          /\ must' = IF anyCall THEN must ELSE must \cup {Ev.h}
-         /\ l' = l + 1 /\ UNCHANGED <<viol, comp, sync, anyCall, open, nret, cnt, sum, pending>>
+         /\ l' = l + 1 /\ UNCHANGED <<viol, comp, sync, anyCall, open, nret, cnt, sum, pending, excl, linger>>
 
 TrOwn == /\ Is("Own") /\ pending' = pending \cup {Ev.h}
-         /\ l' = l + 1 /\ UNCHANGED <<viol, comp, sync, anyCall, open, nret, must, cnt, sum>>
+         /\ l' = l + 1 /\ UNCHANGED <<viol, comp, sync, anyCall, open, nret, must, cnt, sum, excl, linger>>
 
 \* open: closer -> what was owed when it called Close (that much its own return must find done)
+TrDrop == /\ Is("Drop") /\ pending' = pending \ {Ev.h} /\ must' = must \ {Ev.h}
+          /\ l' = l + 1 /\ UNCHANGED <<viol, comp, sync, anyCall, open, nret, cnt, sum, excl, linger>>
+
+\* excl: a call that starts while another disposal may be in flight (a call still open, or a helper left behind) owes nothing
+Busy == excl /\ (DOMAIN open # {} \/ linger)
 TrCall == /\ Is("CloseCall") /\ anyCall' = TRUE
-          /\ must' = must \cup pending /\ pending' = {}
-          /\ open' = [x \in DOMAIN open \cup {Ev.p} |-> IF x = Ev.p THEN must' ELSE open[x]]
-          /\ l' = l + 1 /\ UNCHANGED <<viol, comp, sync, nret, cnt, sum>>
+          /\ IF Busy THEN must' = must /\ pending' = pending
+                     ELSE must' = must \cup pending /\ pending' = {}
+          /\ open' = [x \in DOMAIN open \cup {Ev.p} |-> IF x = Ev.p THEN (IF Busy THEN {} ELSE must') ELSE open[x]]
+          /\ l' = l + 1 /\ UNCHANGED <<viol, comp, sync, nret, cnt, sum, excl, linger>>
 
 MissingOf(owed, when) == {V("AtLeastOnce", comp \o ":" \o h \o ":" \o when) : h \in {x \in owed : Cnt(x) = 0}}
 Missing(when) == MissingOf(must, when)
@@ -67,24 +88,31 @@ Missing(when) == MissingOf(must, when)
 TrRet == /\ Is("CloseRet") /\ nret' = nret + 1
          /\ open' = [x \in DOMAIN open \ {Ev.p} |-> open[x]]
          /\ viol' = viol \cup (IF sync /\ Ev.p \in DOMAIN open THEN MissingOf(open[Ev.p], "at-return") ELSE {})
-         /\ l' = l + 1 /\ UNCHANGED <<comp, sync, anyCall, must, cnt, sum, pending>>
+         /\ linger' = (linger \/ (Has("async") /\ Ev.async))
+         /\ l' = l + 1 /\ UNCHANGED <<comp, sync, anyCall, must, cnt, sum, pending, excl>>
+
+TrSettled == /\ Is("Settled") /\ linger' = FALSE
+             /\ l' = l + 1 /\ UNCHANGED <<viol, comp, sync, anyCall, open, nret, must, cnt, sum, pending, excl>>
 
 TrRan == /\ Is("Ran")
          /\ cnt' = [x \in DOMAIN cnt \cup {Ev.h} |-> IF x = Ev.h THEN Cnt(x) + 1 ELSE cnt[x]]
          /\ viol' = viol \cup (IF Cnt(Ev.h) >= 1 THEN {V("AtMostOnce", comp \o ":" \o Ev.h)} ELSE {})
-         /\ l' = l + 1 /\ UNCHANGED <<comp, sync, anyCall, open, nret, must, sum, pending>>
+         /\ l' = l + 1 /\ UNCHANGED <<comp, sync, anyCall, open, nret, must, sum, pending, excl, linger>>
 
 TrReport == /\ Is("Report") /\ sum' = sum + Ev.delta
-            /\ l' = l + 1 /\ UNCHANGED <<viol, comp, sync, anyCall, open, nret, must, cnt, pending>>
+            /\ l' = l + 1 /\ UNCHANGED <<viol, comp, sync, anyCall, open, nret, must, cnt, pending, excl, linger>>
+
+TrFault == /\ Is("Fault")
+           /\ l' = l + 1 /\ UNCHANGED <<viol, comp, sync, anyCall, open, nret, must, cnt, sum, pending, excl, linger>>
 
 TrOp == /\ Is("Op")
         /\ viol' = viol \cup (IF Ev.res \in {"panic", "hang"}
                               THEN {V("CleanFailure", comp \o ":" \o Ev.op \o ":" \o Ev.res)} ELSE {})
-        /\ l' = l + 1 /\ UNCHANGED <<comp, sync, anyCall, open, nret, must, cnt, sum, pending>>
+        /\ l' = l + 1 /\ UNCHANGED <<comp, sync, anyCall, open, nret, must, cnt, sum, pending, excl, linger>>
 
 TrPanic == /\ Is("Panic")
            /\ viol' = viol \cup {V("NoPanic", comp \o ":" \o Ev.where)}
-           /\ l' = l + 1 /\ UNCHANGED <<comp, sync, anyCall, open, nret, must, cnt, sum, pending>>
+           /\ l' = l + 1 /\ UNCHANGED <<comp, sync, anyCall, open, nret, must, cnt, sum, pending, excl, linger>>
 
 \* one hammer round: a complete little trace of its own, reduced to the counts
 TrRound ==
@@ -92,7 +120,7 @@ TrRound ==
   /\ LET c == Ev.counts IN
      viol' = viol \cup {V("AtMostOnce", comp \o ":" \o h) : h \in {x \in DOMAIN c : c[x] >= 2}}
                   \cup {V("AtLeastOnce", comp \o ":" \o h \o ":at-quiescence") : h \in {x \in DOMAIN c : c[x] = 0}}
-  /\ l' = l + 1 /\ UNCHANGED <<comp, sync, anyCall, open, nret, must, cnt, sum, pending>>
+  /\ l' = l + 1 /\ UNCHANGED <<comp, sync, anyCall, open, nret, must, cnt, sum, pending, excl, linger>>
 
 TrQuiesce ==
   /\ Is("Quiesce")
@@ -100,14 +128,15 @@ TrQuiesce ==
        \cup (IF nret > 0 THEN Missing("at-quiescence") ELSE {})
        \cup (IF Ev.traffic /\ sum > Ev.moved THEN {V("TrafficOnce", comp \o ":over")} ELSE {})
        \cup (IF Ev.traffic /\ sum < Ev.moved THEN {V("TrafficOnce", comp \o ":under")} ELSE {})
+       \cup (IF Ev.traffic /\ Has("stored") /\ sum = Ev.moved /\ Ev.stored < Ev.moved THEN {V("TrafficOnce", comp \o ":lost")} ELSE {})
        \cup (IF Ev.leaked > 0 THEN {V("NoLeak", comp \o ":" \o Ev.top)} ELSE {})
        \cup (IF DOMAIN open # {} THEN {V("CloseReturns", comp)} ELSE {})
-  /\ l' = l + 1 /\ UNCHANGED <<comp, sync, anyCall, open, nret, must, cnt, sum, pending>>
+  /\ l' = l + 1 /\ UNCHANGED <<comp, sync, anyCall, open, nret, must, cnt, sum, pending, excl, linger>>
 
 TrEnd == /\ Is("End") /\ EmitVerdict
          /\ l' = l + 1 /\ viol' = {} /\ comp' = "?" /\ sync' = FALSE /\ anyCall' = FALSE
-         /\ open' = <<>> /\ nret' = 0 /\ must' = {} /\ cnt' = <<>> /\ sum' = 0 /\ pending' = {}
+         /\ open' = <<>> /\ nret' = 0 /\ must' = {} /\ cnt' = <<>> /\ sum' = 0 /\ pending' = {} /\ excl' = FALSE /\ linger' = FALSE
 
-Next == TrCfg \/ TrReg \/ TrOwn \/ TrCall \/ TrRet \/ TrRan \/ TrReport \/ TrOp \/ TrPanic \/ TrRound \/ TrQuiesce \/ TrEnd
+Next == TrCfg \/ TrReg \/ TrOwn \/ TrDrop \/ TrSettled \/ TrCall \/ TrRet \/ TrRan \/ TrReport \/ TrFault \/ TrOp \/ TrPanic \/ TrRound \/ TrQuiesce \/ TrEnd
 Spec == Init /\ [][Next]_vars
 =============================================================================
